@@ -95,7 +95,8 @@ std::string random_m_call(sim::Rng& r, int s, const CFunc* f, double p_special)
 {
    const std::string sig = f->sig;
    const unsigned i = (unsigned)r.below(4), k = (unsigned)r.below(4);
-   if (sig == "_M_s_u") return mline(s, f->name, 0, r.chance(0.04) ? 1 : 0, 0, r.chance(0.25) ? 0 : r.range(0, 64));
+   if (sig == "_M_s_u") { static const long big[] = {65, 96, 100, 128, 200, 256, 400, 512, 1000, 1024};
+                          return mline(s, f->name, 0, r.chance(0.04) ? 1 : 0, 0, r.chance(0.25) ? 0 : r.chance(0.15) ? big[r.below(10)] : r.range(0, 64)); }
    if (sig == "E_M_d_u") {
       static const double precs[] = {1e-8, 1e-5, 1e-12, 1e-30, 0.0, 1.0, -1.0};
       double prec = precs[r.below(7)];
